@@ -136,7 +136,7 @@ PROPERTY_META = {
         "as kani::requires are asserted at every call site. No overflow obligation failing for any input means the overflow-checked and the "
         "optimised build execute the same operations on the same values, hence identical bits.",
    note=_KANI_NOTE + " Not under contract here: P32E2 sleef elementary functions (quire-fused kernels; C15), P16 elementary functions (covered by "
-        "the C11 obligations in the thorough tier), generic PxE1/PxE2 (C13/C14), linalg, simba/approx glue. clamp(min > max) is a known finding (D9).",
+        "the C11 obligations in the thorough tier), generic PxE1/PxE2 (C13/C14), linalg, simba/approx glue; P32E2 rem/div_euclid/rem_euclid (they inline the monolithic divider: obligation exists as tier 'deep', does not close in an hour; their parts add/sub/mul/div/trunc are covered). clamp(min > max) is a known finding (D9).",
    assumptions=["build-profile independence is inferred from the absence of overflow/panic obligations; the two profiles are not compared bit for bit by the verifier",
                 "todo!() stubs are recognised from the source (grep) and excluded"]),
  "C17": dict(level="proof",
